@@ -336,10 +336,38 @@ def rule_rowops(ctx: Ctx) -> None:
         m = repo.module(rel)
         for fn in m.functions():
             groups: Dict[str, List[ast.Call]] = {}
+            # local names that hold a tableau's matrix (assigned from <t>.x_matrix / .z_matrix / .table ..., or from an oblivious
+            # operation on such a name) and are written back into the tableau later
+            held: Dict[str, str] = {}
+            changed_ = True
+            while changed_:
+                changed_ = False
+                for a_ in ast.walk(fn):
+                    if isinstance(a_, ast.Assign) and len(a_.targets) == 1 and isinstance(a_.targets[0], ast.Name) and a_.targets[0].id not in held:
+                        v_ = a_.value
+                        if isinstance(v_, ast.Attribute) and v_.attr in TAB_MATS and isinstance(v_.value, ast.Name):
+                            held[a_.targets[0].id] = v_.value.id
+                            changed_ = True
+                        elif isinstance(v_, ast.Call) and call_attr(v_) in OBLIVIOUS and v_.args and isinstance(v_.args[0], ast.Name) and v_.args[0].id in held:
+                            held[a_.targets[0].id] = held[v_.args[0].id]
+                            changed_ = True
+            written_back = {n_ for n_ in held for a_ in ast.walk(fn) if isinstance(a_, ast.Assign) and any(
+                isinstance(t_, ast.Attribute) and t_.attr in TAB_MATS for t_ in a_.targets) and any(isinstance(x_, ast.Name) and x_.id == n_ for x_ in ast.walk(a_.value))}
+            returned = {n_ for n_ in held for r_ in ast.walk(fn) if isinstance(r_, ast.Return) and r_.value is not None
+                        and any(isinstance(x_, ast.Name) and x_.id == n_ for x_ in ast.walk(r_.value))}
             for c in calls_in(fn, nested=False):
                 a = call_attr(c)
                 if a in OBLIVIOUS and c.args and isinstance(c.args[0], ast.Attribute) and c.args[0].attr in TAB_MATS | {"phase"}:
                     groups.setdefault(norm(c.args[0].value), []).append(c)
+                elif a in OBLIVIOUS and a != "row_swap" and c.args and isinstance(c.args[0], ast.Name) and c.args[0].id in held \
+                        and (c.args[0].id in written_back or c.args[0].id in returned or
+                             any(isinstance(p_, ast.Assign) and norm(p_.targets[0]) in written_back | returned for p_ in [parent(c)])):
+                    total += 1
+                    ctx.touch(m, fn)
+                    ctx.fail("own.rowops", m, c,
+                             f"sign-oblivious `{a}` is applied to `{c.args[0].id}`, a local holding `{held[c.args[0].id]}`'s matrix that is written back / "
+                             f"returned: generators of a tableau may only be combined through row_sum / tab_row_sum, which update the sign vector "
+                             f"(a product of Z-type generators still multiplies their signs)", func=qualname(fn))
             for recv, cs in groups.items():
                 total += 1
                 ctx.touch(m, fn)
